@@ -399,60 +399,66 @@ Proof.
   repeat split.
 Qed.
 
-Lemma hdr_step_get k e sn n v :
-  env_get k (fst (hdr_step (e, sn) (n, v))) =
+Lemma hdr_step_get hon k e sn n v :
+  env_get k (fst (hdr_step hon (e, sn) (n, v))) =
   if beq (env_key n) k
-  then Some (if beq n s_CONTENT_TYPE_h || beq n s_CONTENT_LENGTH_h then v
+  then Some (if beq n s_CONTENT_LENGTH_h || (beq n s_CONTENT_TYPE_h && negb content_type_joins) then v
              else match env_get k e with Some old => old ++ [44] ++ v | None => v end)
   else env_get k e.
 Proof.
   unfold hdr_step, env_key.
-  destruct (beq n s_CONTENT_TYPE_h); [cbn [fst orb]; rewrite env_get_set, beq_sym; reflexivity|].
-  destruct (beq n s_CONTENT_LENGTH_h); [cbn [fst orb]; rewrite env_get_set, beq_sym; reflexivity|].
-  cbn [fst orb]. rewrite env_get_set, beq_sym.
-  destruct (beq (http_key n) k) eqn:E; [|reflexivity]. apply beq_eq in E. subst k. reflexivity.
+  destruct (beq n s_CONTENT_TYPE_h) eqn:Ect.
+  - cbn [fst]. rewrite env_get_set, beq_sym.
+    destruct (beq s_CONTENT_TYPE k) eqn:E; [|reflexivity]. apply beq_eq in E. subst k.
+    apply beq_eq in Ect. subst n. change (beq s_CONTENT_TYPE_h s_CONTENT_LENGTH_h) with false.
+    cbn [orb andb]. destruct content_type_joins; reflexivity.
+  - destruct (beq n s_CONTENT_LENGTH_h); [cbn [fst orb]; rewrite env_get_set, beq_sym; reflexivity|].
+    cbn [fst orb andb]. rewrite env_get_set, beq_sym.
+    destruct (beq (http_key n) k) eqn:E; [|reflexivity]. apply beq_eq in E. subst k. reflexivity.
 Qed.
 
-Lemma fold_get_http : forall hs e sn k,
+Lemma fold_get_http hon : forall hs e sn k,
   starts_with s_HTTP_ k = true ->
-  env_get k (fst (fold_left hdr_step hs (e, sn))) = acc_join (env_get k e) (vals k hs).
+  env_get k (fst (fold_left (hdr_step hon) hs (e, sn))) = acc_join (env_get k e) (vals k hs).
 Proof.
   induction hs as [|[n v] hs IH]; intros e sn k Hk; [reflexivity|].
-  cbn [fold_left]. pose proof (hdr_step_get k e sn n v) as G.
-  destruct (hdr_step (e, sn) (n, v)) as [e' sn']. cbn [fst] in G. rewrite (IH e' sn' k Hk), G.
+  cbn [fold_left]. pose proof (hdr_step_get hon k e sn n v) as G.
+  destruct (hdr_step hon (e, sn) (n, v)) as [e' sn']. cbn [fst] in G. rewrite (IH e' sn' k Hk), G.
   unfold vals. cbn [filter fst]. destruct (beq (env_key n) k) eqn:Ek; [|reflexivity].
   destruct (env_key_http n k Hk Ek) as (-> & -> & _). reflexivity.
 Qed.
 
-Lemma fold_get_ct : forall hs e sn,
-  env_get s_CONTENT_TYPE (fst (fold_left hdr_step hs (e, sn))) =
-  acc_set (env_get s_CONTENT_TYPE e) (vals s_CONTENT_TYPE hs).
+Lemma fold_get_ct hon : forall hs e sn,
+  env_get s_CONTENT_TYPE (fst (fold_left (hdr_step hon) hs (e, sn))) =
+  (if content_type_joins then acc_join else acc_set) (env_get s_CONTENT_TYPE e) (vals s_CONTENT_TYPE hs).
 Proof.
-  induction hs as [|[n v] hs IH]; intros e sn; [reflexivity|].
-  cbn [fold_left]. pose proof (hdr_step_get s_CONTENT_TYPE e sn n v) as G.
-  destruct (hdr_step (e, sn) (n, v)) as [e' sn']. cbn [fst] in G. rewrite (IH e' sn'), G.
+  induction hs as [|[n v] hs IH]; intros e sn; [destruct content_type_joins; reflexivity|].
+  cbn [fold_left]. pose proof (hdr_step_get hon s_CONTENT_TYPE e sn n v) as G.
+  destruct (hdr_step hon (e, sn) (n, v)) as [e' sn']. cbn [fst] in G. rewrite (IH e' sn'), G.
   unfold vals. cbn [filter fst]. destruct (beq (env_key n) s_CONTENT_TYPE) eqn:Ek; [|reflexivity].
-  rewrite env_key_ct in Ek. rewrite Ek. reflexivity.
+  rewrite env_key_ct in Ek. rewrite Ek. apply beq_eq in Ek. subst n.
+  change (beq s_CONTENT_TYPE_h s_CONTENT_LENGTH_h) with false. cbn [orb andb map snd].
+  destruct content_type_joins; reflexivity.
 Qed.
-Lemma fold_get_cl : forall hs e sn,
-  env_get s_CONTENT_LENGTH (fst (fold_left hdr_step hs (e, sn))) =
+Lemma fold_get_cl hon : forall hs e sn,
+  env_get s_CONTENT_LENGTH (fst (fold_left (hdr_step hon) hs (e, sn))) =
   acc_set (env_get s_CONTENT_LENGTH e) (vals s_CONTENT_LENGTH hs).
 Proof.
   induction hs as [|[n v] hs IH]; intros e sn; [reflexivity|].
-  cbn [fold_left]. pose proof (hdr_step_get s_CONTENT_LENGTH e sn n v) as G.
-  destruct (hdr_step (e, sn) (n, v)) as [e' sn']. cbn [fst] in G. rewrite (IH e' sn'), G.
+  cbn [fold_left]. pose proof (hdr_step_get hon s_CONTENT_LENGTH e sn n v) as G.
+  destruct (hdr_step hon (e, sn) (n, v)) as [e' sn']. cbn [fst] in G. rewrite (IH e' sn'), G.
   unfold vals. cbn [filter fst]. destruct (beq (env_key n) s_CONTENT_LENGTH) eqn:Ek; [|reflexivity].
-  rewrite env_key_cl in Ek. rewrite Ek, orb_true_r. reflexivity.
+  rewrite env_key_cl in Ek. rewrite Ek. reflexivity.
 Qed.
 
 (* keys the loop never writes *)
-Lemma fold_get_other : forall hs e sn k,
+Lemma fold_get_other hon : forall hs e sn k,
   starts_with s_HTTP_ k = false -> beq k s_CONTENT_TYPE = false -> beq k s_CONTENT_LENGTH = false ->
-  env_get k (fst (fold_left hdr_step hs (e, sn))) = env_get k e.
+  env_get k (fst (fold_left (hdr_step hon) hs (e, sn))) = env_get k e.
 Proof.
   induction hs as [|[n v] hs IH]; intros e sn k H1 H2 H3; [reflexivity|].
-  cbn [fold_left]. pose proof (hdr_step_get k e sn n v) as G.
-  destruct (hdr_step (e, sn) (n, v)) as [e' sn']. cbn [fst] in G. rewrite (IH e' sn' k H1 H2 H3), G.
+  cbn [fold_left]. pose proof (hdr_step_get hon k e sn n v) as G.
+  destruct (hdr_step hon (e, sn) (n, v)) as [e' sn']. cbn [fst] in G. rewrite (IH e' sn' k H1 H2 H3), G.
   destruct (beq (env_key n) k) eqn:Ek; [|reflexivity]. exfalso.
   apply beq_eq in Ek. subst k. unfold env_key in *.
   destruct (beq n s_CONTENT_TYPE_h); [discriminate|]. destruct (beq n s_CONTENT_LENGTH_h); [discriminate|].
@@ -466,17 +472,19 @@ Proof.
 Qed.
 
 (* the script name after the loop: the last SCRIPT_NAME header, else the configured one *)
-Lemma fold_script : forall hs e sn,
-  snd (fold_left hdr_step hs (e, sn)) =
-  match acc_set None (map snd (filter (fun h => beq (fst h) s_SCRIPT_NAME) hs)) with Some v => v | None => sn end.
+Lemma fold_script hon : forall hs e sn,
+  snd (fold_left (hdr_step hon) hs (e, sn)) =
+  if hon then match acc_set None (map snd (filter (fun h => beq (fst h) s_SCRIPT_NAME) hs)) with Some v => v | None => sn end
+  else sn.
 Proof.
-  induction hs as [|[n v] hs IH]; intros e sn; [reflexivity|].
+  induction hs as [|[n v] hs IH]; intros e sn; [destruct hon; reflexivity|].
   cbn [fold_left filter fst].
-  assert (Hs : snd (hdr_step (e, sn) (n, v)) = if beq n s_SCRIPT_NAME then v else sn).
+  assert (Hs : snd (hdr_step hon (e, sn) (n, v)) = if beq n s_SCRIPT_NAME && hon then v else sn).
   { unfold hdr_step. destruct (beq n s_CONTENT_TYPE_h) eqn:E1.
     - apply beq_eq in E1. subst n. reflexivity.
     - destruct (beq n s_CONTENT_LENGTH_h) eqn:E2; [apply beq_eq in E2; subst n; reflexivity|]. reflexivity. }
-  destruct (hdr_step (e, sn) (n, v)) as [e' sn']. cbn [snd] in Hs. subst sn'. rewrite IH.
+  destruct (hdr_step hon (e, sn) (n, v)) as [e' sn']. cbn [snd] in Hs. subst sn'. rewrite IH.
+  destruct hon; [|rewrite andb_false_r; reflexivity]. rewrite andb_true_r.
   destruct (beq n s_SCRIPT_NAME); cbn [map snd acc_set].
   - rewrite acc_set_some. destruct (acc_set None _); reflexivity.
   - reflexivity.
@@ -546,7 +554,7 @@ Theorem environ_faithful_proof : forall c p reqno data r rest i e,
     env_get s_QUERY_STRING e = Some (t_query tg) /\
     (forall k, starts_with s_HTTP_ k = true -> env_get k e = sp_var present (s_fields rq) k) /\
     env_get s_CONTENT_LENGTH e = sp_var present (s_fields rq) s_CONTENT_LENGTH /\
-    ((length (sp_values present (s_fields rq) s_CONTENT_TYPE) <= 1)%nat ->
+    (content_type_joins = true \/ (length (sp_values present (s_fields rq) s_CONTENT_TYPE) <= 1)%nat ->
        env_get s_CONTENT_TYPE e = sp_var present (s_fields rq) s_CONTENT_TYPE) /\
     exists sn pinfo,
       env_get s_SCRIPT_NAME e = Some sn /\ env_get s_PATH_INFO e = Some pinfo /\
@@ -576,10 +584,10 @@ Proof.
   cbn [s_method s_target s_protocol s_fields]. cbv zeta.
   apply wsgi_create_tail in Hw as (env1 & sn & pi & Hf & Hpa & _ & Hsn & Hpi & _ & _ & Hother).
   cbn [set_ppi r_headers r_https r_path r_method r_query r_uri r_version] in *.
-  assert (He1 : env1 = fst (fold_left hdr_step (r_headers r)
+  assert (He1 : env1 = fst (fold_left (hdr_step (honours_script_name c p)) (r_headers r)
             ([(s_REQUEST_METHOD, r_method r); (s_QUERY_STRING, r_query r); (s_RAW_URI, r_uri r);
               (s_SERVER_PROTOCOL, protocol_text (r_version r))], os_script_name c))) by (rewrite Hf; reflexivity).
-  assert (Hsn1 : sn = snd (fold_left hdr_step (r_headers r)
+  assert (Hsn1 : sn = snd (fold_left (hdr_step (honours_script_name c p)) (r_headers r)
             ([(s_REQUEST_METHOD, r_method r); (s_QUERY_STRING, r_query r); (s_RAW_URI, r_uri r);
               (s_SERVER_PROTOCOL, protocol_text (r_version r))], os_script_name c))) by (rewrite Hf; reflexivity).
   assert (Hinit : forall k, beq k s_url_scheme = false -> beq k s_REMOTE_ADDR = false -> beq k s_REMOTE_PORT = false ->
@@ -605,7 +613,7 @@ Proof.
   split.
   { intros k Hk.
     rewrite (Hother k) by (apply (starts_with_neq s_HTTP_ k _ Hk); reflexivity).
-    rewrite He1, (fold_get_http _ _ _ k Hk), (Hnone k (or_introl Hk)), Hst, vals_stored, acc_join_none.
+    rewrite He1, (fold_get_http _ _ _ _ k Hk), (Hnone k (or_introl Hk)), Hst, vals_stored, acc_join_none.
     unfold sp_var. destruct (sp_values _ fs k); reflexivity. }
   assert (Hcl : (length (vals s_CONTENT_LENGTH (r_headers r)) <= 1)%nat).
   { unfold set_body_reader in Hbody.
@@ -618,9 +626,12 @@ Proof.
   split.
   { intros Hct. rewrite (Hother s_CONTENT_TYPE) by reflexivity.
     rewrite He1, fold_get_ct, (Hnone s_CONTENT_TYPE) by auto. rewrite Hst, vals_stored.
-    rewrite acc_set_le1 by exact Hct. unfold sp_var. destruct (sp_values _ fs s_CONTENT_TYPE); reflexivity. }
+    destruct content_type_joins.
+    - rewrite acc_join_none. unfold sp_var. destruct (sp_values _ fs s_CONTENT_TYPE); reflexivity.
+    - destruct Hct as [Hct|Hct]; [discriminate|].
+      rewrite acc_set_le1 by exact Hct. unfold sp_var. destruct (sp_values _ fs s_CONTENT_TYPE); reflexivity. }
   exists sn, (unquote pi). split; [exact Hsn|]. split; [exact Hpi|]. split.
-  - intros Hno. rewrite Hsn1, fold_script, Hst, (stored_no_script _ _ _ Hno). reflexivity.
+  - intros Hno. rewrite Hsn1, fold_script, Hst, (stored_no_script _ _ _ Hno). destruct (honours_script_name c p); reflexivity.
   - intros H37. rewrite unquote_is_pct_decode, <- Tp, <- Hpath, Hpa. symmetry. apply pct_decode_app_nopct. exact H37.
 Qed.
 
